@@ -27,27 +27,31 @@ Local Open Scope N_scope.
 
 func main() {
 	flag.Parse()
-	klog.LogToStderr(false)
-	klog.SetOutput(io.Discard)
+	kf := flag.NewFlagSet("klog", flag.ContinueOnError)
+	klog.InitFlags(kf)
+	kf.Set("logtostderr", "false")
+	kf.Set("alsologtostderr", "false")
+	kf.Set("stderrthreshold", "FATAL")
+	klog.SetOutput(io.Discard) // the witness logs "Rollback(): ... already been committed" on every success
 	r := lib.Rand()
-	w := lib.NewWriter(header, 60)
+	w := lib.NewWriter(header, 14)
 	h := newHarness(r, w)
 	defer os.RemoveAll(h.dbdir)
 
 	h.findingReplays()
-	nSeq := lib.Count(170, 2500)
+	nSeq := lib.Count(140, 1500)
 	for i := 0; i < nSeq; i++ {
 		h.sequentialCase(i)
 	}
-	nConc := lib.Count(24, 400)
+	nConc := lib.Count(24, 300)
 	for i := 0; i < nConc; i++ {
 		h.concurrentCase(i)
 	}
-	nVer := lib.Count(500, 12000)
+	nVer := lib.Count(400, 6000)
 	for i := 0; i < nVer; i++ {
 		h.verifyCase(i)
 	}
-	nTree := lib.Count(60, 1200)
+	nTree := lib.Count(40, 600)
 	for i := 0; i < nTree; i++ {
 		h.treeCase(i)
 	}
